@@ -1090,6 +1090,18 @@ fn gen_pyserde(rng: &mut Rng, n: usize, _tier: &str) -> Vec<String> {
         let p = a.new_pair(x, y).unwrap();
         let blob = serialize_2026(&a, p, 0).unwrap();
         let classic = node_to_bytes(&a, p).unwrap();
+        // the same blob with its first varint written in the two-byte (overlong) form: accepted in lenient
+        // mode only; every entry point's *default* is strict
+        if blob.len() > 7 && blob[6] < 0x40 {
+            let mut over = blob[..6].to_vec();
+            over.extend_from_slice(&[0x80, blob[6]]);
+            over.extend_from_slice(&blob[7..]);
+            for pre in ["", "api:"] {
+                for d in ["auto", "2026", "auto:1048576:0", "auto:1048576:1", "2026:1048576:0"] {
+                    push(&mut out, &format!("{pre}{d}"), "view", &over);
+                }
+            }
+        }
         for pre in ["", "api:"] {
             for fmt in ["auto", "2026"] {
                 for cap in [0usize, 4, 5, 6, 1 << 20] {
